@@ -5,6 +5,7 @@ package main
 import (
 	"encoding/base64"
 	"fmt"
+	"net/url"
 	"sort"
 
 	"github.com/buzzfeed/sso/internal/auth/providers"
@@ -155,6 +156,20 @@ func (b *browser) idpLogin(slug, email string, verified bool, expires int64) aRe
 	return res
 }
 
+// an IdP login whose code exchange fails at the token endpoint
+func (b *browser) idpLoginFailing(slug, email string, status int) aRes {
+	b.nlogin++
+	f := b.h.w.idp
+	f.mu.Lock()
+	f.ncode++
+	code := fmt.Sprintf("idpcode%d", f.ncode)
+	f.codes[code] = &pendingCode{email: email, verified: true, expires: 1800, fail: status}
+	f.mu.Unlock()
+	nonce := fmt.Sprintf("nonce%d", b.nlogin)
+	state := b64(lit(nonce + ":http://" + authHost + "/" + slug + "/sign_in"))
+	return b.h.auth(aReq{Slug: slug, Leaf: "/callback", Method: "GET", Query: query("code", lit(code), "state", state), Csrf: nonce, IdpCode: code, SigFrom: -1, Route: 4})
+}
+
 // the proxy's /oauth2/callback
 func (b *browser) proxyCallback(sg *sigRef, code codeChoice) pRes {
 	res := b.h.proxy(pReq{Host: sg.host, Method: "GET", Path: "/oauth2/callback", Code: code, Flow: sg, CodeFrom: -1})
@@ -180,6 +195,67 @@ func (b *browser) login(host, email string, expires int64) pRes {
 	}
 	b.proxyCallback(sg, codeChoice{kind: 1, cd: ar.code})
 	return b.visit(host, "/app", 0)
+}
+
+// the authenticator's /sign_in URL of a proxy redirect, as the browser would follow it (real text / model text)
+func (b *browser) signInURL(sg *sigRef) tv {
+	uri, sig, ts := b.h.sigValues(sg)
+	pre := "http://" + authHost + "/" + sg.slug + "/sign_in?"
+	model := cat(lit(pre), query("client_id", lit(clientID), "redirect_uri", uri, "response_type", lit("code"), "sig", sig, "state", lit("STATE"), "ts", ts))
+	real := cat(lit(pre), query("client_id", lit(clientID), "redirect_uri", uri, "response_type", lit("code"), "sig", sig, "state", lit(sg.state), "ts", ts))
+	model.Real = real.Real
+	return model
+}
+
+// the login started the way the sign-in page does it: /start (signed nested redirect) -> IdP -> /callback
+func (b *browser) startLogin(sg *sigRef, email string, expires int64) aRes {
+	u := b.signInURL(sg)
+	if pu, err := url.Parse(u.Real); err != nil || pu.String() != u.Real {
+		return b.idpLogin(sg.slug, email, true, expires)
+	}
+	uri, sig, ts := b.h.sigValues(sg)
+	st := b.h.auth(aReq{Slug: sg.slug, Leaf: "/start", Method: "GET", Query: query("redirect_uri", u), SigFrom: sg.step, Route: 1, URI: sg.uri,
+		Parse: [][2]tv{{u, u}, {uri, uri}}, Nested: [][4]tv{{u, uri, sig, ts}}})
+	if st.nonce == "" || st.status != 302 {
+		return st
+	}
+	b.nlogin++
+	f := b.h.w.idp
+	f.mu.Lock()
+	f.ncode++
+	code := fmt.Sprintf("idpcode%d", f.ncode)
+	f.codes[code] = &pendingCode{email: email, verified: true, expires: expires}
+	f.mu.Unlock()
+	state := b64(cat(lit(st.nonce+":"), u))
+	res := b.h.auth(aReq{Slug: sg.slug, Leaf: "/callback", Method: "GET", Query: query("code", lit(code), "state", state), Csrf: st.nonce,
+		IdpCode: code, SigFrom: -1, Route: 4})
+	b.takeA(res, sg.slug)
+	if len(res.cookies) > 0 {
+		f.mu.Lock()
+		g := f.byTok["at-"+code]
+		f.mu.Unlock()
+		b.grantOf[res.step] = g
+		b.vouchOf[res.step] = res.cookies[0].v
+		b.h.grants++
+	}
+	return res
+}
+
+// a request straight to a back-channel path (an attacker who talks to the authenticator directly)
+func (b *browser) backProbe(slug, leaf, method string, id, secret string, extra ...interface{}) aRes {
+	kv := []interface{}{"client_id", lit(id)}
+	if secret != "" {
+		kv = append(kv, "client_secret", lit(secret))
+	}
+	kv = append(kv, extra...)
+	rq := aReq{Slug: slug, Leaf: leaf, Method: method, SigFrom: -1, Route: 5, Creds: id == clientID && secret == clientSecret}
+	if method == "POST" {
+		rq.Body = query(kv...)
+		rq.CType = "application/x-www-form-urlencoded"
+	} else {
+		rq.Query = query(kv...)
+	}
+	return b.h.auth(rq)
 }
 
 // proxy sign-out followed by the authenticator's confirmed sign-out
@@ -240,7 +316,11 @@ func genHistory(w *world, r *c.Rng, kind int) c.Case {
 			h.idpRevoke(g, v)
 		}
 		b.visit(host, "/app", 0)
-		b.tick(V + 200)
+		if !forceRefreshTick && r.Chance(0.5) {
+			b.tick(V + 200) // the next check is a revalidation
+		} else {
+			b.tick(expires + 300) // the next check is a refresh: "revoked" must not be taken for "unavailable"
+		}
 		b.visit(host, "/app", 0)
 		b.visit(host, "/app", 0)
 	case 2: // sign-out
@@ -251,7 +331,11 @@ func genHistory(w *world, r *c.Rng, kind int) c.Case {
 		if keep != nil { // the old proxy cookie is replayed
 			res := h.proxy(pReq{Host: host, Method: "GET", Path: "/app", Ck: pChoice{kind: 1, ck: keep}, CodeFrom: -1})
 			_ = res
-			b.tick(V + 200)
+			if !forceRefreshTick && r.Chance(0.5) {
+				b.tick(V + 200)
+			} else {
+				b.tick(expires + 300)
+			}
 			h.proxy(pReq{Host: host, Method: "GET", Path: "/app", Ck: pChoice{kind: 1, ck: keep}, CodeFrom: -1})
 		}
 	case 3: // outage of the IdP / of the authenticator, grace
@@ -286,7 +370,11 @@ func genHistory(w *world, r *c.Rng, kind int) c.Case {
 			b.idpLogin(sg.slug, email, true, expires)
 			ar := b.signIn(sg, b.aChoice(sg.slug))
 			if ar.code != nil {
-				switch r.Intn(4) {
+				variant := r.Intn(4)
+				if forcedVariant >= 0 {
+					variant = forcedVariant
+				}
+				switch variant {
 				case 0: // junk code, then the good one
 					b.proxyCallback(sg, codeChoice{kind: 2, raw: "not-a-code"})
 					b.proxyCallback(sg, codeChoice{kind: 1, cd: ar.code})
@@ -312,8 +400,122 @@ func genHistory(w *world, r *c.Rng, kind int) c.Case {
 			}
 		}
 		b.visit(host, "/app", 0)
+	case 6: // an attacker at the back channel: with, without and with wrong client credentials
+		res := b.visit(host, "/app", 0)
+		if res.signIn != nil {
+			sg := res.signIn
+			b.idpLogin(sg.slug, email, true, expires)
+			ar := b.signIn(sg, b.aChoice(sg.slug))
+			if ar.code != nil {
+				cv := b.h.codeValue(codeChoice{kind: 1, cd: ar.code})
+				b.backProbe(sg.slug, "/redeem", "POST", clientID, "wrong-secret", "code", cv)
+				b.backProbe(sg.slug, "/redeem", "POST", "wrong-id", clientSecret, "code", cv)
+				b.backProbe(sg.slug, "/redeem", "POST", clientID, "", "code", cv)
+				b.backProbe(sg.slug, "/redeem", "POST", clientID, clientSecret, "code", cv)
+				b.backProbe(sg.slug, "/redeem", "GET", clientID, clientSecret, "code", cv)
+				b.backProbe(sg.slug, "/refresh", "POST", clientID, "wrong-secret", "refresh_token", lit(ar.code.sess.RefreshToken))
+				b.backProbe(sg.slug, "/redeem", "POST", clientID, clientSecret, "code", lit("junk-code"))
+				b.proxyCallback(sg, codeChoice{kind: 1, cd: ar.code})
+			}
+		}
+		b.visit(host, "/app", 0)
+	case 7: // the login as the sign-in page starts it (/start), then the authenticator session refreshes at the IdP
+		res := b.visit(host, "/app", 0)
+		if res.signIn != nil {
+			sg := res.signIn
+			b.signIn(sg, b.aChoice(sg.slug))
+			b.startLogin(sg, email, expires)
+			ar := b.signIn(sg, b.aChoice(sg.slug))
+			if ar.code != nil {
+				b.proxyCallback(sg, codeChoice{kind: 1, cd: ar.code})
+			}
+			b.visit(host, "/app", 0)
+			// later: a second upstream; the authenticator's access token is due for refresh
+			b.tick(expires + 300)
+			other := hosts[(1+indexOf(hosts, host))%len(hosts)]
+			b.login(other, email, expires)
+			b.visit(host, "/app", 0)
+		}
+	case 8: // tampered / stale / foreign parameters at the authenticator
+		res := b.visit(host, "/app", 0)
+		if res.signIn != nil {
+			sg := res.signIn
+			b.idpLogin(sg.slug, email, true, expires)
+			uri, sig, ts := b.h.sigValues(sg)
+			ck := b.aChoice(sg.slug)
+			evil := lit("http://evil.example.org/oauth2/callback")
+			otherHost := lit("http://" + hosts[(1+indexOf(hosts, host))%len(hosts)] + "/oauth2/callback")
+			mk := func(u, sg2, t tv, cid string) tv {
+				return query("client_id", lit(cid), "redirect_uri", u, "response_type", lit("code"), "sig", sg2, "state", lit("STATE"), "ts", t)
+			}
+			try := func(qy tv, uriReal string) {
+				ar := b.h.auth(aReq{Slug: sg.slug, Leaf: "/sign_in", Method: "GET", Query: qy, Ck: ck, SigFrom: -1, Route: 2, URI: uriReal})
+				b.takeA(ar, sg.slug)
+				ck = b.aChoice(sg.slug)
+			}
+			try(mk(evil, sig, ts, clientID), evil.Real)                                               // redirect swapped: out of domain
+			try(mk(otherHost, sig, ts, clientID), otherHost.Real)                                     // redirect swapped: another upstream (signature does not cover it)
+			try(mk(uri, lit("AAAA"), ts, clientID), sg.uri)                                           // junk signature
+			try(mk(uri, sig, lit("1"), clientID), sg.uri)                                             // other time stamp
+			try(mk(uri, sig, ts, "someone-else"), sg.uri)                                             // other client id
+			try(query("client_id", lit(clientID), "redirect_uri", uri, "sig", sig, "ts", ts), sg.uri) // no state
+			b.tick(400)                                                                               // the signature is now stale
+			ar := b.signIn(sg, b.aChoice(sg.slug))
+			if ar.code != nil {
+				b.proxyCallback(sg, codeChoice{kind: 1, cd: ar.code})
+			}
+		}
+		b.visit(host, "/app", 0)
+	case 9: // lifetime of the proxy session, then of the authenticator session
+		b.login(host, email, expires)
+		b.tick(w.spec.L + 500)
+		b.visit(host, "/app", 0)
+		b.login(host, email, expires)
+		b.tick(w.spec.AuthLife + 500)
+		b.visit(host, "/app", 0)
+		b.login(host, email, expires)
+	case 10: // malformed stream: failing IdP logins, wrong hosts, unknown paths, junk cookies, junk callbacks, XHR
+		b.idpLogin("google", email, false, expires) // the IdP does not vouch: e-mail not verified
+		b.idpLoginFailing("okta", email, []int{400, 429, 500, 503}[r.Intn(4)])
+		b.login(host, email, expires)
+		for i := 0; i < 8; i++ {
+			switch r.Intn(9) {
+			case 0:
+				h.proxy(pReq{Host: "unknown.proxy.test", Method: "GET", Path: "/app", Ck: b.pChoice(host), CodeFrom: -1})
+			case 1:
+				h.proxy(pReq{Host: host, Method: "GET", Path: "/app", Ck: pChoice{kind: 2, raw: "junk" + fmt.Sprint(r.Intn(100))}, CodeFrom: -1})
+			case 2:
+				h.proxy(pReq{Host: host, Method: "GET", Path: "/oauth2/callback", Code: codeChoice{kind: 2, raw: "x"}, NoState: true, NoCsrf: true, CodeFrom: -1})
+			case 3:
+				h.proxy(pReq{Host: host, Method: "GET", Path: "/app", Hdrs: [][2]string{{"X-Requested-With", "XMLHttpRequest"}}, CodeFrom: -1})
+			case 4:
+				h.auth(aReq{Host: "evil.example.org", Slug: "google", Leaf: "/sign_in", Method: "GET", Ck: b.aChoice("google"), SigFrom: -1, Route: 0})
+			case 5:
+				h.auth(aReq{Slug: "google", Leaf: "/nothing", Method: "GET", SigFrom: -1, Route: 0})
+			case 6:
+				h.auth(aReq{Slug: "okta", Leaf: "/callback", Method: "GET", Query: query("code", lit("nocode"), "state", b64(lit("n:http://sso-auth.proxy.test/"))), Csrf: "other", SigFrom: -1, Route: 4})
+			case 7:
+				h.auth(aReq{Slug: "okta", Leaf: "/sign_out", Method: "POST", Ck: b.aChoice("okta"), SigFrom: -1, Route: 3})
+			case 8:
+				h.proxy(pReq{Host: host, Method: "GET", Path: "/oauth2/auth", Ck: b.pChoice(host), CodeFrom: -1})
+			}
+		}
+		b.visit(host, "/app", 0)
 	}
 	return h.caseOut()
+}
+
+const nKinds = 11
+
+var forcedVariant = -1
+var forceRefreshTick = false
+
+// the corpus witnesses of the two observations of docs/notes/IntSystem.md: a code redeemed on another host (variant 2),
+// a code minted before a revocation and redeemed after it (variant 3)
+func genWitness(w *world, r *c.Rng, variant int) c.Case {
+	forcedVariant = variant
+	defer func() { forcedVariant = -1 }()
+	return genHistory(w, r, 5)
 }
 
 func indexOf(l []string, s string) int {
@@ -340,12 +542,27 @@ func main() {
 	}
 	var cases []c.Case
 	// corpus: one history of every kind in the first world
-	for k := 0; k < 6 && len(cases) < args.N; k++ {
-		cases = append(cases, genHistory(worlds[0], r.Sub(k), k))
+	for k := 0; k < nKinds && len(cases) < args.N; k++ {
+		cases = append(cases, genHistory(worlds[k%2], r.Sub(k), k))
+	}
+	// revocation / sign-out followed by a due REFRESH, in the world with a grace period
+	for _, k := range []int{1, 2} {
+		if len(cases) < args.N {
+			forceRefreshTick = true
+			cases = append(cases, genHistory(worlds[0], r.Sub(200+k), k))
+			forceRefreshTick = false
+		}
+	}
+	// the witness histories of the two observations, deterministically
+	if len(cases) < args.N {
+		cases = append(cases, genWitness(worlds[0], r.Sub(100), 2))
+	}
+	if len(cases) < args.N {
+		cases = append(cases, genWitness(worlds[0], r.Sub(101), 3))
 	}
 	for len(cases) < args.N {
 		w := worlds[r.Intn(len(worlds))]
-		cases = append(cases, genHistory(w, r.Sub(len(cases)), r.Intn(6)))
+		cases = append(cases, genHistory(w, r.Sub(len(cases)), r.Intn(nKinds)))
 	}
 	for _, w := range worlds {
 		w.close()
